@@ -7,11 +7,17 @@
 namespace symx {
   static unsigned gauss_count = 0;       // deviates handed out in the current function body
   static double gauss_scale = 1.0;
-  inline void gauss_reset () { gauss_count = 0; }
+  static std::vector<scalar_t> gauss_queue;   // deviates created up front by the driver (uniform signatures across paths)
+  static unsigned gauss_qpos = 0;
+  inline void gauss_reset () { gauss_count = 0; gauss_queue.clear (); gauss_qpos = 0; }
+  inline void gauss_preload (unsigned n) {
+    for (unsigned i=0; i<n; i++) { std::string name = "g" + std::to_string (i); gauss_queue.push_back (in (name.c_str(), -1.5, 1.5)); }
+  }
 }
 BoxMuller::BoxMuller (long) { have_one_ready = false; one_ready = 0; }
 float BoxMuller::evaluate ()
 {
+  if (symx::gauss_qpos < symx::gauss_queue.size ()) { symx::gauss_count ++; return symx::gauss_queue[symx::gauss_qpos ++]; }
   std::string name = "g" + std::to_string (symx::gauss_count ++);
   return symx::in (name.c_str(), -1.5, 1.5);
 }
